@@ -12,6 +12,6 @@ CONSTANTS
   Pos <- MCPos
   TheRepo = "r1"
   Contents <- MCContents
-  SpaceSel = "subj4"
+  SpaceSel = "live"
 INVARIANTS PTypeOK TypeOK PassBound MeasureNat SubjectFirst OnlyGrounded AllBeforePush OutcomeAgrees NeverRefused NothingUntilComplete CatAgrees NextPushAcceptable TagPushAcceptable FinalExact TagErrorLeaves OtherReposUntouched
-PROPERTIES Decreases FailedCallStoresNothing
+PROPERTIES Terminates Decreases FailedCallStoresNothing
